@@ -106,10 +106,10 @@ theorem C02_gen_builtin_features_comply :
     ∃ sn sp bn bp, Generated.C02.saslNecessary = some sn ∧ Generated.C02.saslProhibited = some sp ∧
       Generated.C02.bindNecessary = some bn ∧ Generated.C02.bindProhibited = some bp ∧
       ∀ st0 : Mask, has st0 Secure = false → has st0 Authn = false →
-        ∀ rr rt, Compliant ⟨rr, rt, [⟨7, BitVec.ofNat 8 sn, BitVec.ofNat 8 sp, true⟩,
+        ∀ rr rt sk, Compliant ⟨rr, rt, sk, [⟨7, BitVec.ofNat 8 sn, BitVec.ofNat 8 sp, true⟩,
                                      ⟨8, BitVec.ofNat 8 bn, BitVec.ofNat 8 bp, true⟩]⟩ st0 := by
   refine ⟨_, _, _, _, rfl, rfl, rfl, rfl, ?_⟩
-  intro st0 hs ha rr rt f hf
+  intro st0 hs ha rr rt sk f hf
   simp only [List.mem_cons, List.not_mem_nil, or_false] at hf
   revert st0
   rcases hf with rfl | rfl <;> decide
@@ -261,10 +261,47 @@ example : unitsB byteTokeniser 5 [[72, 80]] [] = [.hdr true, .proceed] ∧
     unitsB byteTokeniser 5 [[72], [], [80]] [] = [.hdr true, .proceed] :=
   ⟨rfl, rfl⟩
 
+/-! ### A list is not done while a required feature it skipped has become negotiable
+
+(features.go `dcd0f4b`; the model's `sk`.)  C02 does not depend on it — every theorem above holds
+for both values — but the tie does: after the TLS switch a list may name a feature whose masks
+did not hold when the list was read and hold once a voluntary feature of the same list has been
+negotiated; the session is then not `Ready`, the list is an error. -/
+
+theorem C02_list_not_done_while_required_pending (cfg : FCfg) (hsk : cfg.sk = true) (skipped : List Cached)
+    (s : Sess) (c : Cached) (hc : c ∈ skipped) (hreq : c.req = true) (hneg : c.f.negotiable = true)
+    (hnot : s.negotiated.contains c.id = false) (hel : eligible s.state c.f.nec c.f.proh = true) :
+    finishList cfg skipped s = .stop (.err .proto) s := by
+  unfold finishList
+  rw [if_pos]
+  simp only [hsk, Bool.true_and, List.any_eq_true]
+  refine ⟨c, hc, ?_⟩
+  rw [hreq, hneg, hnot, hel]
+  rfl
+
+/-- the two scripts of the round-3 report: STARTTLS, then a list with a voluntary feature that
+sets Authn and a required one that needs Authn — "features advertised out of order", not Ready -/
+example :
+    (run { rr := false, rt := true, sk := true, tee := false,
+           others := [⟨1, 1, 0, true⟩, ⟨2, 3, 4, true⟩] } ⟨1, 0, none⟩ 0
+      ⟨[[.hdr true, .list [], .proceed]],
+       [.unit (.hdr true), .unit (.list [⟨2, true, true⟩, ⟨1, false, true⟩, ⟨9, false, true⟩])],
+       [(0, ⟨0, false, false⟩), (1, ⟨2, false, false⟩)]⟩ 20).2 = .stop (.err .proto) := by
+  decide +kernel
+
+/-- … and with the older features.go (`sk = false`) the same script ended in a session -/
+example :
+    (run { rr := false, rt := true, sk := false, tee := false,
+           others := [⟨1, 1, 0, true⟩, ⟨2, 3, 4, true⟩] } ⟨1, 0, none⟩ 0
+      ⟨[[.hdr true, .list [], .proceed]],
+       [.unit (.hdr true), .unit (.list [⟨2, true, true⟩, ⟨1, false, true⟩, ⟨9, false, true⟩])],
+       [(0, ⟨0, false, false⟩), (1, ⟨2, false, false⟩)]⟩ 20).2 = .done 7 true true := by
+  decide +kernel
+
 /-! ### Non-vacuity -/
 
 def f1 : Feature := ⟨1, Secure, 0, true⟩
-def cfg1 : Cfg := { rr := false, rt := false, others := [f1], tee := true }
+def cfg1 : Cfg := { rr := false, rt := false, sk := true, others := [f1], tee := true }
 
 example : Compliant cfg1.toFCfg 0 := by
   intro f hf
@@ -283,7 +320,7 @@ example :
 
 /-- the hypothesis matters: a feature that does not require `Secure` does write in clear text -/
 example :
-    Ev.wOther 1 false ∈ (run { rr := false, rt := false, others := [⟨1, 0, 0, true⟩], tee := false } ⟨0, 1, none⟩ 0
+    Ev.wOther 1 false ∈ (run { rr := false, rt := false, sk := true, others := [⟨1, 0, 0, true⟩], tee := false } ⟨0, 1, none⟩ 0
       ⟨[[.hdr true, .list [⟨0, false, true⟩, ⟨1, false, true⟩]]], [], [(1, ⟨0, false, false⟩)]⟩ 10).1 := by
   decide +kernel
 
